@@ -1446,7 +1446,11 @@ func (m *StateMachine) beginCommit(
 			"round", rlc.R,
 			"committing_hash", glog.Hex(vrv.VoteSummary.MostVotedPrecommitHash),
 		)
-		return
+
+		// Waiting for the header is not a failure.
+		// Reporting one makes callers quit the state machine's main loop
+		// or skip recording the round's view.
+		return true
 	}
 
 	return gchan.SendC(
